@@ -192,6 +192,12 @@ def _impl(tier, seed, search):
                 ok2, c = L.noraise('==(far line, shifted)', lambda: (lf == Plucker.PQ(Pf + shf, Pf + shf + df * 5), lf != Plucker.PQ(Pf + shf, Pf + shf + df * 5), lf == Plucker.PointDir(Pf + shf, df * 2), lf == Plucker.PQ(Pf + df, Pf + df * 3)), finp, 'Plucker == on far-away lines')
                 if ok2:
                     L.check('==:shifted-copy(far)', (not bool(c[0])) and bool(c[1]) and not bool(c[2]), finp, f'a line {scf:g} from the origin and a parallel copy shifted sideways by {rel_:g} of that distance compare equal', sig='==:shifted')
+                    for dg_ in (np.array([0.36, 0.48, 0.8]), np.array([1.0, 2.0, 3.0]) / math.sqrt(14.0)):
+                        for (s1_, s2_, s3_, s4_) in ((10.0, 11.0, -7.0, 3.0), (10.0, 11.0, -7.0, 3.3), (100.0, 101.5, -50.0, 0.0)):
+                            Pg_ = np.array([0.3, 0.7, -1.1]) * (scf / 30.0)
+                            try: eqg_ = (Plucker.PQ(Pg_ + s1_ * dg_, Pg_ + s2_ * dg_) == Plucker.PQ(Pg_ + s3_ * dg_, Pg_ + s4_ * dg_))
+                            except Exception: eqg_ = None
+                            L.check('==:same-line(generic direction)', eqg_ is not None and bool(eqg_), dict(P=Pg_, dir=dg_, params=[s1_, s2_, s3_, s4_]), 'the same line built from two other point pairs far along it does not compare equal', sig='==:shifted')
                     L.check('==:same-line(far)', bool(c[3]), finp, 'the same far-away line built from other points / a rescaled direction does not compare equal', sig='==:shifted')
         # a parallel copy shifted sideways by 1e-4 .. 1e-2 of the data magnitude is a different line
         sh_ = np.cross(d / np.linalg.norm(d), inputs.unit_axis(g))
